@@ -33,7 +33,17 @@ def expr_text(e):
                 parts.append("(")
             elif t[0] == "rp":
                 parts.append(")")
-        return " ".join(parts)
+        # "glue": how the operators are spaced -- "A - 1" (default), "A-1", "A -1", "A- 1"; same tokens, same value
+        glue = e.get("glue", "spaced")
+        if glue == "spaced":
+            return " ".join(parts)
+        out = ""
+        for i, (t, p) in enumerate(zip(e["toks"], parts)):
+            if t[0] == "op":
+                out += (" " if glue == "left" else "") + p + (" " if glue == "right" else "")
+            else:
+                out += p
+        return out
     if k == "int":
         return hex(e["v"]) if e.get("hex") else str(e["v"])
     if k == "ref":
@@ -138,7 +148,7 @@ def write_program(prog, outdir, lay=None):
     for name, decls in prog["files"].items():
         p = os.path.join(outdir, name + ".bitproto")
         txt = render_file(decls, lay)
-        with open(p, "w") as f:
+        with open(p, "w", encoding="utf8") as f:
             f.write(txt)
         prog["_texts"][name] = txt
         paths[name] = p
